@@ -421,7 +421,7 @@ def main():
             seeded, s2broken = st.run_seeded(prop, rule_names, scratch)
             extra_broken += s2broken
             selftest = dict(selftest or {}, seeded_changes=seeded)
-            refac, s3broken = st.run_refactors(prop, rule_names, scratch)
+            refac, s3broken = st.run_refactors(prop, rule_names, scratch, site_files={r['file'] for r in sites})
             extra_broken += s3broken
             selftest = dict(selftest, refactorings=refac)
         if wsum:
